@@ -77,6 +77,22 @@ def run_program(sg, hist, junk=0):
                 opt.step()
             ps = model.parameters()
             out.append(h(*([p_.data for p_ in ps] + [np.array(len(ps))])))
+        elif api == "cnn":
+            # convolution + pooling whose windows do not tile the input (7x7 with 2x2 windows), dropout, two steps
+            model = nn.Sequential(nn.Conv2d(1, 2, 2), nn.ReLU(), nn.MaxPool2d(2), nn.Flatten(), nn.Dropout(0.2), nn.Linear(18, 3))
+            opt = sg.optim.SGD(model.parameters(), lr=0.05, momentum=0.5)
+            data = sg.Tensor((np.linspace(-1, 1, 2 * 64, dtype=np.float32).reshape(2, 1, 8, 8) ** 3), requires_grad=True)
+            labels = sg.Tensor(np.array([0, 2]))
+            for _ in range(2):
+                opt.zero_grad()
+                loss = nn.CrossEntropyLoss()(model(data), labels)
+                loss.backward()
+                opt.step()
+            ps = model.parameters()
+            pool_in = sg.Tensor(np.arange(2 * 9, dtype=np.float32).reshape(1, 2, 9) ** 2 / 7.0, requires_grad=True)
+            y = sg.nn.functional.avg_pool1d(pool_in, 4)
+            y.backward(sg.ones_like(y.data))
+            out.append(h(*([p_.data for p_ in ps] + [p_.grad.data for p_ in ps] + [data.grad.data, pool_in.grad.data])))
         elif api == "train":
             model = nn.Sequential(nn.Linear(4, 5), nn.BatchNorm1d(5), nn.ReLU(), nn.Dropout(0.3), nn.Linear(5, 3))
             opt = sg.optim.Adam(model.parameters(), lr=0.05)
